@@ -46,6 +46,7 @@ fn main() {
         "C08" => props::c08::run(&mut ctx),
         "C09" => props::c09::run(&mut ctx),
         "C10" => props::c10::run(&mut ctx),
+        "C11" => props::c11::run(&mut ctx),
         "C12" => props::c12::run(&mut ctx),
         "C16" => props::c16::run(&mut ctx),
         "C18" => props::c18::run(&mut ctx),
